@@ -128,6 +128,11 @@ func (w *Watcher) getGovernanceEventsByTxId(
 		if event.EventIndex != WormholeMessageEventIndex {
 			continue
 		}
+		// A transaction can touch any number of contracts: only events emitted by the
+		// governance contract are wormhole messages.
+		if event.ContractAddress != address {
+			continue
+		}
 
 		header, err := client.GetBlockHeader(ctx, event.BlockHash)
 		if err != nil {
